@@ -574,6 +574,36 @@ theorem trans_C02_C12_C13_C19_intervals_positive_v1 (r : T_v1_Batcher_cfg) :
   simp only [applyDefault, defFlush, defCap, defAudit, defMot, defPause]
   refine ⟨?_, ?_, ?_, ?_, ?_⟩ <;> split <;> omega
 
+/-! ### the library's own Operation: what the admission prefix reads, and what a delivery does to it -/
+
+/-- `MakeAttempt()` adds exactly one to what `Attempt()` reports (below 2^32) and changes neither the cost nor the
+batchable flag: the getters the admission prefix reads are pure, and an attempt is counted per delivery (C14's
+`only_delivery_counts` is about that counter) -/
+theorem trans_C14_MakeAttempt_v2 (o : T_v2_operation) (h0 : 0 ≤ o.attempt) (h : o.attempt + 1 < 4294967296) :
+    v2_op_Attempt (v2_op_MakeAttempt o) = v2_op_Attempt o + 1 ∧
+    v2_op_Cost (v2_op_MakeAttempt o) = v2_op_Cost o ∧ v2_op_IsBatchable (v2_op_MakeAttempt o) = v2_op_IsBatchable o := by
+  simp only [v2_op_Attempt, v2_op_MakeAttempt, v2_op_Cost, v2_op_IsBatchable, u32]
+  refine ⟨?_, by trivial, by trivial⟩
+  omega
+
+theorem trans_C14_MakeAttempt_v1 (o : T_v1_Operation) (h0 : 0 ≤ o.attempt) (h : o.attempt + 1 < 4294967296) :
+    v1_op_Attempt (v1_op_MakeAttempt o) = v1_op_Attempt o + 1 ∧
+    v1_op_Cost (v1_op_MakeAttempt o) = v1_op_Cost o ∧ v1_op_IsBatchable (v1_op_MakeAttempt o) = v1_op_IsBatchable o := by
+  simp only [v1_op_Attempt, v1_op_MakeAttempt, v1_op_Cost, v1_op_IsBatchable, u32]
+  refine ⟨?_, by trivial, by trivial⟩
+  omega
+
+/-- with the library's Operation, `MaxAttempts` deliveries make the next `Enqueue` fail: after `n` calls of
+`MakeAttempt` on a fresh operation `Attempt() = n`, and the admission prefix refuses it iff `n ≥ MaxAttempts > 0` -/
+theorem trans_C14_attempts_after_deliveries_v2 (o : T_v2_operation) (n : Nat) (h0 : o.attempt = 0) (hn : n < 4294967296) :
+    v2_op_Attempt (Nat.repeat v2_op_MakeAttempt n o) = n := by
+  induction n with
+  | zero => simpa [Nat.repeat, v2_op_Attempt] using h0
+  | succ k ih =>
+    have := ih (by omega)
+    simp only [Nat.repeat, v2_op_Attempt, v2_op_MakeAttempt, u32] at this ⊢
+    rw [this]; omega
+
 /-! ### non-vacuity: the translated functions on concrete values (also a readable trace of what they compute) -/
 
 example : v2_incTarget ⟨7⟩ 5 = ⟨12⟩ ∧ v2_incTarget ⟨7⟩ (-5) = ⟨2⟩ ∧ v2_incTarget ⟨7⟩ (-9) = ⟨0⟩ ∧ v2_incTarget ⟨7⟩ 0 = ⟨7⟩ := by decide
@@ -595,5 +625,6 @@ example : v2_sr_pick ⟨1, 4, 0, 0, 0, [true, false, true, false]⟩ 1 = (2, 3, 
           v1_sr_pick ⟨1, 2, 0, 0, 0, [true, true]⟩ 0 = (2, 0, "error") := by decide
 example : issueGuard (heldIdx [true, false, true, false]) 3 4 (v2_sr_pick ⟨1, 4, 0, 0, 0, [true, false, true, false]⟩ 1).2.1.toNat := by
   unfold issueGuard; decide
+example : v2_op_Attempt (v2_op_MakeAttempt ⟨5, 4294967295, true⟩) = 0 := by decide   -- the wrap the guard excludes
 
 end GoBatcher.ExpectTrans
